@@ -27,6 +27,7 @@ type Event struct {
 	Fire    func()        // executed by the driver goroutine
 	Abort   func()        // executed when draining instead of Fire (nil = Fire)
 	Note    string        // goes to the event log
+	hold    int           // race mode: not a candidate before this step number (unless nothing else is)
 }
 
 type Violation struct {
@@ -521,6 +522,11 @@ func (s *Sim) absorb() {
 		default:
 			ev.Due = now
 		}
+		if s.Parallel > 1 && ev.Class != "lock" && ev.Class != "frame" && s.Sched.Chance(1, 3) {
+			// race mode: hold some events back so that goroutines which would normally run in
+			// different quiescence windows (and therefore be ordered by synctest.Wait) overlap
+			ev.hold = s.steps + 1 + s.Sched.Draw(40)
+		}
 	}
 }
 
@@ -541,6 +547,17 @@ func (s *Sim) enabled(now time.Duration) (en []*Event, nextDue time.Duration, an
 			continue
 		}
 		en = append(en, ev)
+	}
+	if s.Parallel > 1 {
+		var free []*Event
+		for _, ev := range en {
+			if ev.hold <= s.steps {
+				free = append(free, ev)
+			}
+		}
+		if len(free) > 0 {
+			en = free
+		}
 	}
 	s.mu.Unlock()
 	sort.Slice(en, func(i, j int) bool { return en[i].Key < en[j].Key })
@@ -589,7 +606,7 @@ func (s *Sim) Step(maxSleep time.Duration) StepResult {
 		// each other (the race detector can then see them).
 		for k := 1; k < s.Parallel; k++ {
 			en2, _, _ := s.enabled(now)
-			if len(en2) == 0 || !s.Sched.Chance(1, 2) {
+			if len(en2) == 0 || !s.Sched.Chance(3, 4) {
 				break
 			}
 			s.fire(en2[s.Sched.Draw(len(en2))], len(en2))
